@@ -3,6 +3,8 @@
 //! `System` is selected for the current run.
 //!
 //! Policies:
+//! * `System` - the system allocator's placement; inside a SUT scope fresh memory is still filled
+//!   with 0xA5 so that reads of uninitialised memory are deterministic across processes.
 //! * `ExactPoison` – bump arena; address is a multiple of `align` but NOT of `2*align` (odd for
 //!   align 1); fresh memory filled with 0xA5; freed memory filled with 0x5A and never reused
 //!   within the run; `realloc` always moves.
@@ -182,6 +184,14 @@ unsafe impl GlobalAlloc for SimAlloc {
     unsafe fn alloc(&self, l: Layout) -> *mut u8 {
         if active() {
             arena_alloc(l)
+        } else if SCOPE.load(Relaxed) {
+            // system placement, but fresh memory never carries whatever the heap held before:
+            // a read of uninitialised memory then behaves the same in every process (replayable)
+            let p = System.alloc(l);
+            if !p.is_null() {
+                std::ptr::write_bytes(p, FRESH, l.size());
+            }
+            p
         } else {
             System.alloc(l)
         }
@@ -220,6 +230,12 @@ unsafe impl GlobalAlloc for SimAlloc {
             self.dealloc(p, l);
             MOVES.fetch_add(1, Relaxed);
             np
+        } else if SCOPE.load(Relaxed) && new_size > l.size() {
+            let np = System.realloc(p, l, new_size);
+            if !np.is_null() {
+                std::ptr::write_bytes(np.add(l.size()), FRESH, new_size - l.size());
+            }
+            np
         } else {
             System.realloc(p, l, new_size)
         }
@@ -229,7 +245,15 @@ unsafe impl GlobalAlloc for SimAlloc {
 // --- control -----------------------------------------------------------------------------------
 
 /// Select the policy for the run that starts now. Resets the arenas if nothing is live.
+/// `LMSIM_FORCE_ALLOC=system` makes every run use the system allocator (AddressSanitizer pass:
+/// the sanitizer's own redzones and quarantine then guard every block).
+fn forced_system() -> bool {
+    static FORCED: std::sync::OnceLock<bool> = std::sync::OnceLock::new();
+    *FORCED.get_or_init(|| std::env::var("LMSIM_FORCE_ALLOC").map(|v| v == "system").unwrap_or(false))
+}
+
 pub fn begin_run(policy: Policy) {
+    let policy = if forced_system() { Policy::System } else { policy };
     SCOPE.store(false, Relaxed);
     if LIVE.load(Relaxed) == 0 {
         EXACT_OFF.store(0, Relaxed);
